@@ -17,14 +17,15 @@ import (
 type trErr struct{ msg string }
 
 type tr struct {
-	g        *gen
-	fi       *fnInfo
-	info     *types.Info
-	rootIdx  map[*types.Var]int
-	canPanic bool
-	guards   []string // pending "divisor = 0" guards of the statement being translated
-	inLoop   *loopCtx
-	litRet   bool // translating the body of an immediately-invoked func literal
+	g         *gen
+	fi        *fnInfo
+	info      *types.Info
+	rootIdx   map[*types.Var]int
+	canPanic  bool
+	guards    []string // pending "divisor = 0" guards of the statement being translated
+	inLoop    *loopCtx
+	litRet    bool              // translating the body of an immediately-invoked func literal
+	rangeBind map[string]string // element reads of the enclosing range loops -> Lean local
 }
 
 type loopCtx struct {
@@ -76,7 +77,7 @@ var leanReserved = map[string]bool{"at": true, "from": true, "fun": true, "end":
 	"deriving": true, "mut": true, "for": true, "return": true, "def": true, "theorem": true, "structure": true,
 	"namespace": true, "section": true, "variable": true, "universe": true, "import": true, "export": true,
 	"using": true, "calc": true, "suffices": true, "obtain": true, "fuel": true, "Int": true, "Nat": true,
-	"Bool": true, "some": true, "none": true, "true": true, "false": true, "max": true, "min": true, "id": true}
+	"Bool": true, "rest": true, "some": true, "none": true, "true": true, "false": true, "max": true, "min": true, "id": true}
 
 func (t *tr) freshName(base string, obj types.Object) string {
 	n := base
@@ -187,7 +188,11 @@ func (g *gen) translate(fi *fnInfo) (err error) {
 	})
 	var decl, args []string
 	for _, p := range fi.params {
-		decl = append(decl, fmt.Sprintf("(%s : %s)", p.name, p.k.lean()))
+		ty := p.k.lean()
+		if p.typ != "" {
+			ty = p.typ
+		}
+		decl = append(decl, fmt.Sprintf("(%s : %s)", p.name, ty))
 		args = append(args, p.name)
 	}
 	pd, pa := strings.Join(decl, " "), strings.Join(args, " ")
@@ -449,9 +454,9 @@ func (t *tr) bindingFor(e ast.Expr) *Binding {
 	if len(t.fi.spec.Bindings) == 0 {
 		return nil
 	}
-	s := types.ExprString(e)
+	s := nows(types.ExprString(e))
 	for i := range t.fi.spec.Bindings {
-		if t.fi.spec.Bindings[i].Expr == s {
+		if nows(t.fi.spec.Bindings[i].Expr) == s {
 			return &t.fi.spec.Bindings[i]
 		}
 	}
@@ -524,6 +529,9 @@ func maskBits(v constant.Value) (int, bool) {
 }
 
 func (t *tr) expr(x ast.Expr, e *env) string {
+	if n, ok := t.rangeBind[nows(types.ExprString(x))]; ok {
+		return n
+	}
 	tv := t.info.Types[x]
 	if tv.Value != nil {
 		if b := t.bindingFor(x); b == nil {
@@ -707,6 +715,12 @@ func (t *tr) arith(n ast.Node, op token.Token, k kind, X, Y ast.Expr, e *env) st
 
 // prop translates a boolean Go expression to a Lean proposition.
 func (t *tr) prop(x ast.Expr, e *env) string {
+	if n, ok := t.rangeBind[nows(types.ExprString(x))]; ok {
+		return "(" + n + " = true)"
+	}
+	if b := t.bindingFor(x); b != nil {
+		return "(" + t.expr(x, e) + " = true)"
+	}
 	if tv := t.info.Types[x]; tv.Value != nil && tv.Value.Kind() == constant.Bool && t.bindingFor(x) == nil {
 		if constant.BoolVal(tv.Value) {
 			return "True"
@@ -890,3 +904,6 @@ func isFnOption(t types.Type) bool {
 	st, ok := n.Underlying().(*types.Struct)
 	return ok && st.NumFields() == 2 && st.Field(0).Name() == "isSome" && st.Field(1).Name() == "some"
 }
+
+// nows removes all white space (expression strings are compared modulo spacing).
+func nows(s string) string { return strings.Join(strings.Fields(s), "") }
